@@ -198,19 +198,27 @@ def getPointValue (p : Nat) (tab : DigitTab) (lang : LangCfg) (toks : List Str) 
       let r ← pointLoop p lang.cardinal toks none Dec.pointOne
       pure (r.getD Dec.zero)
 
+/-- `_text_number_parse` after the tokenisation: `int_part_real + Decimal(point_part_real)` from the tokens of the
+integer part and (when the text has exactly one written decimal separator) of the point part. -/
+def textNumberCombine (p : Nat) (tab : DigitTab) (lang : LangCfg) (intToks : List Str) (ptToks : Option (List Str)) :
+    Except FErr Dec := do
+  let intReal ← liftRes (getIntValue true tab lang intToks)
+  let pointReal ←
+    match ptToks with
+    | some toks => do
+      let pv ← getPointValue p tab lang toks
+      pure (Dec.add p Dec.zero pv)
+    | none => pure Dec.zero
+  pure (Dec.add p (Dec.ofNat intReal) pointReal)
+
 /-- `_text_number_parse` on `handle` = the lower-cased text after the half-a-dozen substitution. -/
 def textNumberParse (p : Nat) (tab : DigitTab) (T : TokTab) (lang : LangCfg) (alts : List Str) (loose : Bool)
     (writtenDecSep : List Str) (handle : Str) : Except FErr Dec := do
   let numGroup ← splitMulti handle writtenDecSep
   let intPart := numGroup.headD []
   let intToks := if intPart.isEmpty then [] else textTokens T alts loose intPart
-  let intReal ← liftRes (getIntValue true tab lang intToks)
-  let pointReal ←
-    if numGroup.length == 2 then do
-      let pv ← getPointValue p tab lang (textTokens T alts loose (numGroup.getD 1 []))
-      pure (Dec.add p Dec.zero pv)
-    else pure Dec.zero
-  pure (Dec.add p (Dec.ofNat intReal) pointReal)
+  textNumberCombine p tab lang intToks
+    (if numGroup.length == 2 then some (textTokens T alts loose (numGroup.getD 1 [])) else none)
 
 /-! ### binary64 -/
 
@@ -546,6 +554,22 @@ def divE (p : Nat) (a b : Dec) : Except FErr Dec :=
   | some q => .ok q
   | none => .error .zeroDiv
 
+/-- the three value formulas at the end of `_frac_like_number_parse` (`mixed` = a written fraction separator was found):
+`(int + numer/denomi) * multiplier`, `int + (multiplier * numer / denomi)`, `multiplier * (int + numer) / denomi` -/
+def fracValue (p : Nat) (intV numer denomi multiplier : Nat) (mixed isFracMult : Bool) : Except FErr Dec :=
+  let dI := Dec.ofNat intV
+  let dN := Dec.ofNat numer
+  let dD := Dec.ofNat denomi
+  let dM := Dec.ofNat multiplier
+  if mixed && numer < denomi then
+    if isFracMult then do
+      let q ← divE p dN dD
+      pure (Dec.mul p (Dec.add p dI q) dM)
+    else do
+      let q ← divE p (Dec.mul p dN dM) dD
+      pure (Dec.add p dI q)
+  else divE p (Dec.mul p (Dec.add p dI dN) dM) dD
+
 /-- `_frac_like_number_parse` on the lower-cased text. -/
 def fracLikeParse (p : Nat) (tab : DigitTab) (T : TokTab) (sp : Nat → Bool) (c : FracCfg) (rm : Option RoundMatch)
     (text : Str) : Except FErr Val := do
@@ -592,19 +616,7 @@ def fracLikeParse (p : Nat) (tab : DigitTab) (T : TokTab) (sp : Nat → Bool) (c
             pure (n, mi)
           | none => pure (0, fw.length)
         let intV ← liftRes (getIntValue true tab c.lang (toks (Dec.joinWith [32] (fw.take mixed))))
-        let dI := Dec.ofNat intV
-        let dN := Dec.ofNat numer
-        let dD := Dec.ofNat denomi
-        let dM := Dec.ofNat multiplier
-        let v ←
-          if mixed != fw.length && numer < denomi then
-            if isFracMult then do
-              let q ← divE p dN dD
-              pure (Dec.mul p (Dec.add p dI q) dM)
-            else do
-              let q ← divE p (Dec.mul p dN dM) dD
-              pure (Dec.add p dI q)
-          else divE p (Dec.mul p (Dec.add p dI dN) dM) dD
+        let v ← fracValue p intV numer denomi multiplier (mixed != fw.length) isFracMult
         pure (.flt v)
 
 /-! ### `parse` -/
